@@ -63,6 +63,9 @@ type World struct {
 	attachA map[*Conn]int // index into AckLog at attach time
 	rest    http.Handler  // the controller's management API (what an operator or the CSI driver sees)
 	rdv *rendezvous // set while an operation's replicas are to answer at the same instant
+	// Net: the controller uses the real backend (backend/remote + rpc) against scripted replica endpoints (net.go)
+	Net        bool
+	lateBudget int // replies later than the rpc deadline still allowed in this history (net mode)
 	// OperatorRW: an operator request set a replica's mode to RW by hand (no verification, no counter equalisation)
 	OperatorRW bool
 
@@ -86,12 +89,31 @@ func (w *World) note(s string) {
 
 // NewWorld builds a controller with RF and no replicas.
 func NewWorld(prop string, rf int, size int64, r *vk.Rand, res *vk.Result, ipA, ipB int) *World {
+	return newWorld(prop, rf, size, r, res, ipA, ipB, false)
+}
+
+// NewNetWorld is NewWorld with the real backend factory between the controller and the scripted replicas.
+func NewNetWorld(prop string, rf int, size int64, r *vk.Rand, res *vk.Result, ipA, ipB int) *World {
+	return newWorld(prop, rf, size, r, res, ipA, ipB, true)
+}
+
+func newWorld(prop string, rf int, size int64, r *vk.Rand, res *vk.Result, ipA, ipB int, netMode bool) *World {
 	w := &World{Prop: prop, RF: rf, Size: size, R: r, jit: vk.NewRand(r.U64()), Res: res, Fakes: map[string]*Fake{},
 		Maybe: map[int64][]uint32{}, Acked: make([]uint32, size/512), NextWID: 1, attachA: map[*Conn]int{}, ipA: ipA, ipB: ipB, States: map[string]bool{}}
-	w.Fac = &Factory{W: w, SignalErr: map[string]bool{}}
+	w.Net = netMode
+	w.lateBudget = 2
+	var factory types.BackendFactory
+	if netMode {
+		nf := newNetFactory(w)
+		w.Fac = nf.Factory
+		factory = nf
+	} else {
+		w.Fac = &Factory{W: w, SignalErr: map[string]bool{}}
+		factory = w.Fac
+	}
 	w.Front = &Frontend{}
 	os.Setenv("REPLICATION_FACTOR", fmt.Sprint(rf))
-	w.C = controller.NewController(controller.WithName("vol1"), controller.WithClusterIP("127.0.0.1"), controller.WithBackend(w.Fac),
+	w.C = controller.NewController(controller.WithName("vol1"), controller.WithClusterIP("127.0.0.1"), controller.WithBackend(factory),
 		controller.WithFrontend(w.Front, "127.0.0.1"), controller.WithRF(rf))
 	return w
 }
@@ -100,6 +122,9 @@ func NewWorld(prop string, rf int, size int64, r *vk.Rand, res *vk.Result, ipA, 
 func (w *World) Close() {
 	for _, f := range w.Order {
 		f.stopHTTP()
+		if w.Net {
+			f.stopData()
+		}
 		// let go of what still hangs on this world: the monitor goroutine of every attachment (and with it the
 		// controller's monitoring goroutine, which holds the backend) ends when its close channel is signalled;
 		// the per-snapshot copies are the bulk of a fake's memory
@@ -122,6 +147,12 @@ func (w *World) NewFakeAt(ip string, rev int64) *Fake {
 	if err := f.startHTTP(); err != nil {
 		return nil
 	}
+	if w.Net {
+		if err := f.startData(); err != nil {
+			f.stopHTTP()
+			return nil
+		}
+	}
 	w.Fakes[f.Addr] = f
 	w.Order = append(w.Order, f)
 	return f
@@ -135,6 +166,12 @@ func (w *World) NewFake(rev int64) *Fake {
 		f := newFake(w, ip, w.Size, rev)
 		if err := f.startHTTP(); err != nil {
 			continue
+		}
+		if w.Net {
+			if err := f.startData(); err != nil {
+				f.stopHTTP()
+				continue
+			}
 		}
 		w.Fakes[f.Addr] = f
 		w.Order = append(w.Order, f)
@@ -158,6 +195,9 @@ func (w *World) Fail(prop, sig, what string) {
 	w.Dead = true
 	if prop != w.Prop {
 		w.Res.Count("other_property_observation:"+prop+":"+sig, 1)
+		if os.Getenv("VERIF_DEV_DEBUG") != "" {
+			fmt.Fprintf(os.Stderr, "DEV other-property %s %s: %s\n", prop, sig, what)
+		}
 		return
 	}
 	wit := map[string]interface{}{"config": w.Cfg, "steps": append([]Step(nil), w.Log...), "state": w.Describe()}
@@ -220,6 +260,15 @@ func (w *World) Settle() bool {
 			}
 			for _, r := range st.Replicas {
 				if r.Address == f.Addr {
+					pending = true
+				}
+			}
+		}
+		if w.Net {
+			// behind the real backend a stop request of the controller is not visible to the harness: an entry
+			// marked ERR is one whose monitor was stopped and whose removal is under way
+			for _, r := range st.Replicas {
+				if r.Mode == types.ERR {
 					pending = true
 				}
 			}
